@@ -216,6 +216,9 @@ impl Prop for TerminationSync {
             if p.contains("VERIF_OVERRUN") {
                 return Err(format!("{}: more than {} nodes were searched after the Stop (cancellation flag raised at node {:?}); the search does not obey Stop", ctxs, cap, cancel));
             }
+            if p.contains("VERIF_TIMEOUT") {
+                return Err(format!("{}: the search has not returned and has searched no node for {:?}; it neither finished nor obeyed the Stop raised at node {:?}", ctxs, search::stall_limit(), cancel));
+            }
             return Err(format!("{} panicked: {}", ctxs, p));
         }
         if out.nodes_after_cancel > cap {
@@ -460,7 +463,7 @@ pub fn plan(ctx: &Ctx) -> Plan {
                all stay below the poll interval, and every real-thread script.",
         assumptions: &[
             "liveness of the synchronous path is decided in nodes (deterministic); only the thread/channel wrapper relies on a wall-clock watchdog (>= 100x typical)",
-            "a depth-limited synchronous search that never returned would be caught by the harness watchdog (exit 2), not reported as a violation",
+            "a synchronous search that has not returned and whose node counter has not moved for 10 s is reported as stuck: the only wall-clock oracle on that path, needed for loops that search no nodes (a running search counts a node about every microsecond)",
         ],
         self_test: super::oracle_self_test,
         post: None,
